@@ -905,6 +905,11 @@ class Process(StateMachine, persistence.Savable, metaclass=ProcessStateMachineMe
             msg_txt = msg[MESSAGE_TEXT_KEY] or ''
 
         self.set_status(msg_txt)
+
+        # The future may already be done if it was cancelled (which is what triggered the kill), in which case it has
+        # to be replaced before the exception can be set, as is done in ``on_except``.
+        if self.future().done():
+            self._future = persistence.SavableFuture(loop=self._loop)
         self.future().set_exception(exceptions.KilledError(msg_txt))
 
     @super_check
@@ -1348,6 +1353,11 @@ class Process(StateMachine, persistence.Savable, metaclass=ProcessStateMachineMe
             if self.has_terminated():
                 # The process was terminated underneath the step (e.g. a scheduled callback failed it): nothing to do
                 return
+
+            if self._future.cancelled() and not self._killing:
+                # The future was cancelled while the step was in flight and the kill it triggers has not been
+                # scheduled yet: honour it now rather than transitioning with a cancelled future
+                self.kill('Killed by future being cancelled')
 
             if self._interrupt_action:
                 self._interrupt_action.run(next_state)
